@@ -57,7 +57,8 @@ def main():
         m = json.load(open(p))
         tag = m["id"].split("-")[1]
         what = m.get("summary") or describe(m.get("needs_to_manifest", ""), tag)
-        caught = ", ".join(m.get("caught_by") or []) or "MISSED"
+        caught = ", ".join(m.get("caught_by") or []) or (
+            "n/a (judged outside the statement)" if m.get("outside_statement") else "MISSED")
         retro = m.get("caught_before_round", "")
         rows.append((m["id"], what[:200].replace("|", "/"), caught, retro,
                      "yes" if m.get("note") else ""))
